@@ -17,6 +17,8 @@ def run(F, rep):
     rep.run(dt_tables.hash_step_table, F, rep, "C01.3")
     rep.run(dt_compress.extender_table, F, rep, "C01.1", graph_route=False)
     rep.run(dt_compress.hash_builder_table, F, rep, "C01.2")
+    # ... and the three private functions of the k-mer route interpreted together on scripted lines of k-mers
+    rep.run(dt_compress.kmer_chain_table, F, rep, "C01.2")
     rep.run(dt_compress.hash_driver_table, F, rep, "C01.4")
     rep.run(dt_compress.entry_points_table, F, rep, "C01.4")
     rep.run(dt_compress.node_storage_rules, F, rep, "C01.5")
